@@ -61,8 +61,10 @@ PARTIAL = ("Names with non-ASCII cased letters are outside the model (Base/Bytes
            "interface toggles: every packet register_service sends, every announcement add_interface makes and every "
            "response the probing handler sends when probes complete has its RegisterResend queued for now + 1000 "
            "(C07_*_queues_second_announcement), and no iteration leaves a due queue entry behind "
-           "(C07_no_overdue_queue_entry); that the second announcement is then SENT is not proved (it needs the service, "
-           "interface, registry and active records to be still there). Timer coverage of this layer: Props/C12Registry.v. "
+           "(C07_no_overdue_queue_entry), an entry that is not yet due stays queued "
+           "(C07_second_announcement_stays_queued), and when it is due the announcement IS sent for every family in which the "
+           "service is still announceable - still registered, interface and registry still there, records active "
+           "(C07_due_second_announcement_sent_partial; that hypothesis is not derived from the history). Timer coverage of this layer: Props/C12Registry.v. "
            "Proved for all operation sequences of the registry machine and for single daemon steps: the other "
            "clauses (see Props/C07.v). NOT proved as a theorem over histories: that chk_C07 accepts every run of the daemon "
            "model (three probes and the wait before every response, second announcement, wake-up requests); this is "
